@@ -331,6 +331,11 @@ static void payoutOracle(const std::string& id, TreeFix& t, const BlockIndex<Alt
 }
 
 static std::string doOp(const std::string& id, const std::string& op, const std::vector<std::string>& a) {
+  // window ops: the same calls of the real calculator on the FULL tree; the model driver answers them
+  // from the truncated chain only (coq/Rewards/WindowDefs.v), so agreement = the code looks no deeper
+  if (op == "diffw") return doOp(id, "diff", a);
+  if (op == "payatw") return doOp(id, "payat", a);
+  if (op == "payw") return doOp(id, "pay", a);
   if (op == "par") {
     // ki settle delay kround rounds flatround useflat interval start slopeN slopeK thrN thrK R:<..,..> T:<..,..>
     std::string out = "ok";
